@@ -10,7 +10,7 @@ CHECKS = {
     "C01": {
         "level": "exploration",
         "technique": "property-based testing (Hypothesis), round-trip oracle, per-class enumeration",
-        "text": "Every entity class (all 1629 in thorough) gets its own seeded Hypothesis run over boundary-biased canonical instances; encode, append a drawn tail, decode; the decoded value must equal the original and exactly the encoder's bytes must be consumed. Sampling of an infinite value space, complete enumeration of classes.",
+        "text": "Every entity class (all 1629 in thorough; in quick a shape set-cover + all headers + all 36 tag-bearing classes + a seeded sample) gets its own seeded Hypothesis run over boundary-biased canonical instances (special code points, named DST zones, all-defaults nested structs, 32768-byte legacy strings that must be refused); encode, append a drawn tail, decode; the decoded value must equal the original and exactly the encoder's bytes must be consumed. Sampling of an infinite value space, complete enumeration of classes in thorough.",
         "design_ref": "DESIGN.md 2/C01",
         "note": "Round trip is kio against kio; instances are built from generated wire trees by kv.refcodec.to_entity. No absence claim.",
     },
@@ -94,7 +94,7 @@ CHECKS = {
     "C18": {
         "level": "fault_enumeration",
         "technique": "reference-encoded batches x exhaustive enumeration of every single-bit flip, truncation point and wrong magic value",
-        "text": "Each reference-encoded (and each real-broker) batch is read intact (fields and records equal, write-back reproduces bytes) and under every single-bit flip from the CRC field to the end, every truncation length and every wrong magic byte; each damaged input must raise. Faults are enumerated completely per batch; batches are sampled.",
+        "text": "Each reference-encoded batch (0-5 records) and each real-broker batch is read intact (fields and records equal, write-back reproduces bytes) and under every single-bit flip from the CRC field to the end, every truncation length and every wrong magic byte; each damaged input must raise. Faults are enumerated completely per batch; batches are sampled.",
         "design_ref": "DESIGN.md 2/C18",
         "note": "Open known finding K-C18-subsecond-record-timestamps (reader truncates to seconds, pinned by an existing test): excluded from the main identity search by construction and probed separately.",
     },
@@ -108,21 +108,21 @@ CHECKS = {
     "C07": {
         "level": "exploration",
         "technique": "property-based testing over generated message sequences with instrumented sinks/sources; concatenation (metamorphic) oracle",
-        "text": "Generated conversations of header+payload messages of arbitrary classes with leading/trailing junk are written through one of four sink kinds and read back through one of three source kinds; bytes must equal the concatenation of the parts encoded alone, values and stop positions must match, and the instrumented streams reject anything but sequential write(bytes) / read(n>=0).",
+        "text": "Generated conversations of header+payload messages of arbitrary classes with leading/trailing junk are written through one of six sink kinds (incl. a real OS socket and a queueing sink that never copies, the latter on every case) and read back through one of four source kinds (the strict read-only source on every case); bytes must equal the concatenation of the parts encoded alone, values and stop positions must match, and the instrumented streams reject anything but sequential write(bytes) / read(n>=0).",
         "design_ref": "DESIGN.md 2/C07",
         "note": "Stream kinds are emulations (recording asyncio transport, non-seekable raw stream with short reads), not real sockets.",
     },
     "C15": {
         "level": "exploration",
         "technique": "property-based testing of value-object laws (immutability, eq/hash, copy/replace/pickle) on harness-built and decoder-built instances; all classes enumerated",
-        "text": "Generated instances (and what entity_reader constructs for their encodings) of sampled classes, the zero instance of EVERY class, and the four record classes are checked against the value-object laws: mutation rejected, no __dict__, immutable reachable values, equality iff fields equal (single-field perturbation), hash consistency, copy/deepcopy/replace/pickle(2-5) give equal new instances and leave the original unchanged.",
+        "text": "Generated instances (and what entity_reader constructs for their encodings) of sampled classes, the zero instance and a fully populated instance of EVERY class (each field perturbed in turn, dataclass field options inspected), and the four record classes are checked against the value-object laws: mutation rejected, no __dict__, immutable reachable values, equality iff fields equal (single-field perturbation), hash consistency, copy/deepcopy/replace/pickle(2-5) give equal new instances and leave the original unchanged.",
         "design_ref": "DESIGN.md 2/C15",
         "note": "NaN floats are outside the canonical domain.",
     },
     "C19": {
         "level": "exploration",
         "technique": "stateful (rule-based) property testing for histories, exhaustive fault-position injection, and a deterministic line-granularity thread scheduler with drawn and exhaustively swept preemptions",
-        "text": "Three generated dimensions against one oracle (result == pristine result == reference encoding): Hypothesis RuleBasedStateMachine histories over create/clear/encode/decode/truncated/invalid/faulty-stream operations with an invariant after every step; every write/read position of sampled (class, value) pairs injected with an I/O error followed by a clean call on the same closure; and 2-3 threads run under a harness-owned scheduler (sys.settrace in src/kio, token passing) over drawn schedules of <=3 preemptions plus an exhaustive single-preemption sweep over every step of fixed programs.",
+        "text": "Three generated dimensions against one oracle (result == pristine result == reference encoding): Hypothesis RuleBasedStateMachine histories (pools always contain two versions of a same-named class) over create/clear/encode/decode/truncated/invalid/faulty-stream operations with an invariant after every step; every write/read position of sampled (class, value) pairs injected with an I/O error followed by a clean call on the same closure; and 2-3 threads run under a harness-owned scheduler (sys.settrace in src/kio, token passing) over drawn schedules of <=3 preemptions plus an exhaustive single-preemption sweep over every step of fixed programs.",
         "design_ref": "DESIGN.md 2/C19",
         "note": "Interleavings at source-line granularity (C calls atomic), threads <= 3, preemptions <= 3 (1 in the exhaustive sweeps); histories and (class, value) pairs are sampled.",
     },
